@@ -102,5 +102,5 @@ DoBound == Step(NextBound)
 DoContains == Step(NextContains)
 DoEvalBound == Step(NextEvalBound)
 DoContent == Step(NextContent)
-Emit == phase = 1 => PrintT(<<"VEC", ToJson(vec)>>)
+Emit == phase = 1 => PrintT("VEC " \o ToJson(vec))
 =============================================================================
